@@ -129,7 +129,7 @@ def run_tlc(tp, dp, wd, tag, mode="", known="", cfg="Qcow2Env.cfg", spec="Qcow2E
     return recs, gen, dist
 
 
-def tlc_enumerate(spec, cfg=None, env=None, timeout=600, need_recs=True, workers=4):
+def tlc_enumerate(spec, cfg=None, env=None, timeout=600, need_recs=True, workers=4, assume_only=False):
     """run a generator specification; returns the JSON values it printed"""
     cfg = cfg or spec.replace(".tla", ".cfg")
     e = dict(os.environ, JAVA_TOOL_OPTIONS=JAVA_OPTS)
@@ -145,6 +145,9 @@ def tlc_enumerate(spec, cfg=None, env=None, timeout=600, need_recs=True, workers
     finally:
         shutil.rmtree(md, ignore_errors=True)
     recs, gen, dist, ok = parse_tlc(p.stdout)
+    if assume_only:
+        # a module of ASSUMEs only: TLC stops after evaluating them ("no behavior spec")
+        ok = "Error: Assumption" not in p.stdout and "Exception" not in p.stdout and bool(recs)
     if not ok:
         log(p.stdout[-3000:])
         raise ToolError(f"TLC reported an error on {spec}")
